@@ -55,6 +55,10 @@ pub fn c07_sizes(cfg: &Cfg) -> (u64, u64) {
     (scaled(cfg, 300, 5_000), scaled(cfg, 200_000, 6_000_000))
 }
 
+pub fn c07_long_runs(cfg: &Cfg) -> u64 {
+    if matches!(cfg.tier, Tier::Thorough) { 8 } else { 2 }
+}
+
 pub fn c07(cfg: &Cfg, idx: u64, st: &mut Stats) {
     let (sweeps, _) = c07_sizes(cfg);
     let mut rng = rng_for(cfg, idx);
@@ -128,6 +132,15 @@ pub fn c07(cfg: &Cfg, idx: u64, st: &mut Stats) {
             .exhaustive_scopes
             .entry("sweep workload: every fixed cap 1..16 and every position of a single short write (1 and len-1 bytes) and of a single Interrupted".into())
             .or_insert(0) += 1;
+    } else if idx < sweeps + c07_long_runs(cfg) {
+        // "any number of times" over the LIFE of a builder: one long build
+        // (millions of write calls) whose sink returns Interrupted once
+        // before every call; never a burst, tens of millions in total in the
+        // thorough tier
+        let k = idx - sweeps;
+        let n = if matches!(cfg.tier, Tier::Thorough) { [400_000u64, 1_500_000, 4_000_000, 400_000][(k % 4) as usize] } else { 400_000 };
+        let lc = crate::multi::LongCase { n, seed: rng.next_u64(), valued: k % 2 == 0, short_every: if k % 3 == 1 { 0 } else { 7 } };
+        st.report("C07", &Case::Long(lc));
     } else {
         let big = rng.chance(1, 16);
         let (task, _) = if rng.chance(1, 10) {
@@ -680,7 +693,14 @@ pub fn c11(cfg: &Cfg, idx: u64, st: &mut Stats) {
         st.report("C11", &Case::MemBuild(case));
         return;
     }
-    let (task, _) = gen::sweep_task(&mut rng, 12, 8);
+    let (mut task, _) = gen::sweep_task(&mut rng, 12, 8);
+    if idx % 5 == 4 {
+        // keys that are text: long, valid UTF-8, multi-byte characters across
+        // every round offset (whatever the error path does with the key of
+        // the failing call, it must not panic)
+        gen::textify(&mut task.ops, &mut rng);
+        st.count("probe.c11_keys_are_long_utf8_text", 1);
+    }
     // three layerings: alone / with short writes / behind a BufWriter
     let layering = idx % 3;
     let base = BuildCase {
@@ -1935,6 +1955,24 @@ pub fn c13_cases(cfg: &Cfg) -> Vec<MemBuildCase> {
             fam: KeyFamily { n: 400_000, fanout: 26, keylen: 12, seed: seed ^ 0x9120 ^ i as u64, pairs: i == 3, leaf_fan: 0, decreasing: false, repeat: 1, sec_vocab: 0, sec_parents: 0 },
             map: i % 2 == 0,
             registry: *g,
+            bufcap: None,
+            every: 1000,
+            shape: shapes[i % shapes.len()],
+            bulk: false,
+            bulk_stream: false,
+            rejects: 0,
+            reject_run: 0,
+            threads: 1,
+            prologue: *pro,
+        });
+    }
+    // the raw builder with `insert` (an output) and `add` (none) mixed on one
+    // object: one valued header row and then adds only; a valued first half
+    for (i, pro) in [4u8, 8, 5].iter().enumerate() {
+        out.push(MemBuildCase {
+            fam: KeyFamily { n: 400_000, fanout: 26, keylen: 12 + 8 * i as u32, seed: seed ^ 0x4add ^ i as u64, pairs: false, leaf_fan: 0, decreasing: false, repeat: 1, sec_vocab: 0, sec_parents: 0 },
+            map: true,
+            registry: if i == 1 { Some((64, 2)) } else { None },
             bufcap: None,
             every: 1000,
             shape: shapes[i % shapes.len()],
